@@ -154,6 +154,8 @@ func cleanProvenance(p *Program, v ssa.Value, depth int) string {
 
 func runC10(c *Ctx) {
 	p := c.P
+	checkErrnoWrappedOnce(c, "R17")
+	checkOverrideInterfacesConsulted(c, "R18")
 	pos := func(in ssa.Instruction) string { return p.Pos(in.Pos()) }
 	worker := p.Func("(*RequestServer).packetWorker")
 	rfp := p.Func("requestFromPacket")
@@ -1623,4 +1625,89 @@ func checkHandlerCountsBounded(c *Ctx, rule string) {
 		}
 	}
 	c.check(n >= 2, rule, "index and slice expressions beside handler counts", "?", fmt.Sprintf("%d", n), fmt.Sprintf("only %d found", n))
+}
+
+
+// checkErrnoWrappedOnce (C10.R17): statusFromError unwraps one *os.PathError and translates the errno inside; a
+// handler's error that already is a *os.PathError (what os.Open returns) and is wrapped into a second one reaches the
+// client as SSH_FX_FAILURE instead of NO_SUCH_FILE/PERMISSION_DENIED.  On the server side every os.PathError literal
+// therefore wraps a value whose static type is syscall.Errno (a constant, or what a type assertion to Errno gave) —
+// never a value of type error.
+func checkErrnoWrappedOnce(c *Ctx, rule string) {
+	p := c.P
+	n := 0
+	for _, fn := range p.LibFuncs() {
+		if outermost(fn).Package() != p.Sftp || isClientSide(fn) {
+			continue
+		}
+		if f := p.Fset.Position(fn.Pos()).Filename; strings.HasSuffix(f, "request-example.go") {
+			continue
+		}
+		for _, a := range literalsOf(fn, "PathError") {
+			if nn := namedOf(a.Type()); nn == nil || nn.Obj().Pkg() == nil || nn.Obj().Pkg().Path() != "io/fs" && nn.Obj().Pkg().Path() != "os" {
+				continue
+			}
+			v := litField(a, "Err")
+			if v == nil {
+				continue
+			}
+			n++
+			good := false
+			switch x := v.(type) {
+			case *ssa.MakeInterface:
+				if nn := namedOf(x.X.Type()); nn != nil && nn.Obj().Name() == "Errno" {
+					good = true
+				}
+			case *ssa.Const:
+				good = true
+			}
+			c.check(good, rule, "os.PathError literal in "+fnName(fn), p.Pos(a.Pos()),
+				"the wrapped value is an errno",
+				"a *os.PathError is built around a value of type error: if that already is a *os.PathError (what os.Open and most handlers return) the status translation, which unwraps once, answers SSH_FX_FAILURE instead of the errno's code")
+		}
+	}
+	c.floor(rule, 3)
+}
+
+
+// checkOverrideInterfacesConsulted (C10.R18, shared as C17.R13): the optional interfaces by which a handler's FileInfo
+// overrides what the library derives itself (FileInfoUidGid, FileInfoExtendedData) are consulted for every FileInfo:
+// the type assertion is on every path of its function (it dominates every return), not behind a test of what has been
+// found so far — an entry that has both a Sys() owner and Uid()/Gid() must show the handler's answer, as its long name
+// does.
+func checkOverrideInterfacesConsulted(c *Ctx, rule string) {
+	p := c.P
+	n := 0
+	for _, fn := range p.LibFuncs() {
+		if outermost(fn).Package() != p.Sftp {
+			continue
+		}
+		eachInstr(fn, func(in ssa.Instruction) {
+			ta, ok := in.(*ssa.TypeAssert)
+			if !ok {
+				return
+			}
+			nn := namedOf(ta.AssertedType)
+			if nn == nil || nn.Obj().Pkg() == nil || nn.Obj().Pkg().Path() != pkgSftp || !strings.HasPrefix(nn.Obj().Name(), "FileInfo") {
+				return
+			}
+			if _, isIface := nn.Underlying().(*types.Interface); !isIface {
+				return
+			}
+			if typeName(ta.X.Type()) != "FileInfo" {
+				return
+			}
+			n++
+			all := true
+			for _, ret := range findInstrs(fn, isReturn) {
+				if !dominates(ta, ret) {
+					all = false
+				}
+			}
+			c.check(all, rule, fmt.Sprintf("%s consulted in %s", nn.Obj().Name(), fnName(fn)), p.Pos(ta.Pos()),
+				"the assertion is on every path to a return",
+				"the FileInfo is asked for "+nn.Obj().Name()+" only on some paths: what the handler's FileInfo overrides is then taken from elsewhere for some entries (and disagrees with the long name, which always asks)")
+		})
+	}
+	c.floor(rule, 2)
 }
